@@ -53,6 +53,7 @@ MUTS_V3 = [
     "user-other",
     "user-empty",
     "engine-other",
+    "engine-longer",  # the session's engine id followed by two more octets (a prefix test would accept it)
     "engine-empty",
     "version-1",
     "trunc-1",
@@ -267,6 +268,8 @@ class Exec:
             kw["user"] = ""
         elif m == "engine-other":
             kw["engine_id"] = cfg.engine_id[:-1] + bytes([cfg.engine_id[-1] ^ 1])
+        elif m == "engine-longer":
+            kw["engine_id"] = cfg.engine_id + b"\x05\x06"
         elif m == "engine-empty":
             kw["engine_id"] = b"\x00"  # placeholder replaced below
         if req.version in (0, 1):
